@@ -52,7 +52,7 @@ SIMTIME_NOTE = 'simulated poll-clock seconds advanced by the scheduler (FileWatc
 PROBES = ['write_after_read', 'nested_state_after_update', 'shape_change_after_read', 'file_reload_fired', 'linked_mask_after_update',
           'stat_after_update', 'copy_read', 'view_read', 'poll_tick_no_change', 'poll_after_file_vanished', 'link_swapped_same_endpoints', 'listener_read_inside_write',
           'listener_fresh_clone_compared', 'refresh_drops_component', 'refresh_from_kept_source', 'kept_source_updated',
-          'array_shared_between_datasets', 'free_state_read', 'old_state_reapplied', 'viewer_histogram_read', 'viewer_histogram_compared']
+          'array_shared_between_datasets', 'refresh_adds_component', 'kept_source_reshaped', 'free_state_read', 'old_state_reapplied', 'viewer_histogram_read', 'viewer_histogram_compared']
 PROBES_THOROUGH_ONLY = []
 
 READS = ('read_mask', 'read_val', 'read_stat', 'read_hist', 'read_copy', 'hv_read', 'hv_new', 'read_free')
@@ -102,9 +102,12 @@ def generate(rng, cfg, guards):
         elif k == 'upd':
             ops.append([k, r8(), r8(), rng.randrange(10000), rng.chance(0.25)])
         elif k == 'upd_from':
-            ops.append([k, r8(), rng.randrange(10000), rng.pick([None, None, 0, 1, 2]), rng.chance(0.25), rng.pick([None, None, 0, 1])])
+            ops.append([k, r8(), rng.randrange(10000), rng.pick([None, None, 0, 1, 2]), rng.chance(0.25), rng.pick([None, None, 0, 1]), rng.chance(0.25)])
         elif k == 'upd_src':
-            ops.append([k, r8(), r8(), rng.randrange(10000)])
+            if rng.chance(0.3):
+                ops.append(['src_reshape', r8(), rng.randrange(10000), rng.randrange(3)])
+            else:
+                ops.append([k, r8(), r8(), rng.randrange(10000)])
         elif k == 'new_free':
             ops.append([k, W.gen_recipe(rng, 1, kinds)])
         elif k == 'read_free':
@@ -367,6 +370,19 @@ def apply_op(w, op, res, reading, skip=False):
             if mains:
                 res.probe('kept_source_updated')
                 p.update_components({mains[op[2] % len(mains)]: W.values(op[3], p.shape)})
+    elif k == 'src_reshape':
+        # the owner of a refresh source refreshes the source itself, with another shape
+        if w.sources:
+            p = w.sources[op[1] % len(w.sources)]
+            cands = [sh for sh in W.SHAPES if len(sh) == p.ndim and sh != p.shape]
+            if cands:
+                shape = cands[op[3] % len(cands)]
+                newer = Data(label=p.label)
+                for j, c in enumerate(p.main_components):
+                    newer.add_component(W.values(op[2] + j, shape, 'cat' if p.get_kind(c) == 'categorical' else 'int'), c.label)
+                newer.coords = p.coords
+                res.probe('kept_source_reshaped')
+                p.update_values_from_data(newer)
     elif k == 'new_free':
         w.free.append(w.build_state(op[1]))
         del w.free[:-3]
@@ -415,6 +431,11 @@ def apply_op(w, op, res, reading, skip=False):
                         other.add_component(W.values(op[2] + j, shape, 'cat'), c.label)
                     else:
                         other.add_component(W.values(op[2] + j, shape), c.label)
+                if len(op) > 6 and op[6]:
+                    # the new version has an attribute more: the refreshed dataset gains it
+                    w.nx += 1
+                    other.add_component(W.values(op[2] + 50, shape), 'e%d' % w.nx)
+                    res.probe('refresh_adds_component')
                 other.coords = d.coords
                 w.sources.append(other)
                 del w.sources[:-3]
@@ -787,6 +808,8 @@ def run_world(case, res, upto, reading, tmp, decisions):
                             continue
                         sync_model(w, d)
                 check_values(w, op, res)
+                if op[0] in ('upd_from', 'src_reshape', 'upd_src', 'advance'):
+                    check_pixel_coordinates(w, op, res)
             if reading:
                 res.nops += 1
                 res.log.append([i, op[0], out])
@@ -837,6 +860,22 @@ def check_values(w, op, res):
                 raise Violation('C05/values-changed-without-a-write/%s' % op[0],
                                 'dataset %s attribute %s holds %s, the last write to this dataset put %s' % (
                                     d.label, c.label, got.ravel()[:6].tolist(), exp.ravel()[:6].tolist()))
+
+
+def check_pixel_coordinates(w, op, res):
+    """A derived value with a closed form: pixel coordinate i of a dataset is the index along axis i, whatever happened
+    to any other dataset."""
+    for d in w.pool:
+        for i, cid in enumerate(d.pixel_component_ids):
+            try:
+                got = np.asarray(d[cid])
+            except Exception as e:
+                raise Violation('C05/pixel-coordinates-wrong/%s' % op[0], 'dataset %s %s: %s' % (d.label, cid.label, type(e).__name__))
+            exp = np.indices(d.shape)[i] if d.ndim else np.zeros(())
+            res.nchecks += 1
+            if got.shape != exp.shape or not np.array_equal(got, exp):
+                raise Violation('C05/pixel-coordinates-wrong/%s' % op[0], 'dataset %s (shape %s) %s has shape %s = %s' % (
+                    d.label, list(d.shape), cid.label, list(got.shape), got.ravel()[:8].tolist()))
 
 
 def check_fresh_copies(w, meta, res):
